@@ -71,7 +71,7 @@ chk("C15", "fault_enumeration",
 chk("C16", "model_checking",
     "explicit-state BFS over a three-log witness with a read-API monitor (router + bundled client + log list) after every transition, ground truth read straight from the store",
     "After every transition of the search the registered mux router and client/http.Witness are queried for all three logs and the log list and compared with ground truth (for SQL the chkpts table itself, not the persistence object): 200+exact bytes / 404, client bytes / os.ErrNotExist, list = logs with an accepted update (refused first submissions, including one refused after the store was opened, create no entry); 20 odd IDs never yield another log's checkpoint.",
-    "Sizes 0..5 (quick) / 0..8 (thorough). In-memory ground truth necessarily goes through the store's own read path.",
+    "Sizes 0..5 (quick) / 0..8 (thorough). Ground truth: SQL table read directly; in-memory: mirror of successful Sets kept below the witness.",
     "DESIGN.md §5 C16")
 chk("C02", "exploration",
     "bounded-exhaustive input enumeration: complete byte-level 1-edit neighbourhoods and line-level edits of valid checkpoints plus all cross-log replays, with a one-directional authenticity oracle (set of texts the harness signed; crypto/ed25519 directly)",
